@@ -282,8 +282,26 @@ pub fn edge_place(ins: &Ins, regs: &Regs, k: u64) -> Regs {
         _ => vec![],
     };
     let mut r = *regs;
-    let target: u32 = [0xFFFFFu32, 0xFFFFE, 0x100000, 0x100001][(k % 4) as usize];
+    // (besides the end of the 1 MB space: the end of a 64 KiB block of the linear address space in the middle of the
+    // memory, and offset FFFFh of whatever segment the operand has -- a word there goes on with the next linear byte)
+    let mode = k % 8;
+    let target: u32 = [0xFFFFFu32, 0xFFFFE, 0x100000, 0x100001, 0x2FFFF, 0x0FFFF, 0x9FFFF, 0][mode as usize];
     for o in opnds {
+        if mode == 7 {
+            if let Opnd::Mem { base, index, disp, .. } = o {
+                let mut off = (*disp as i64).rem_euclid(65536) as u32;
+                if !base.is_empty() { off = (off + r.get(base) as u32) % 65536; }
+                if !index.is_empty() { off = (off + r.get(index) as u32) % 65536; }
+                let tweak: &str = if !index.is_empty() { index } else { base };
+                if !tweak.is_empty() {
+                    let delta = (0xFFFFu32 + 65536 - off) % 65536;
+                    r.set(tweak, r.get(tweak).wrapping_add(delta as u16));
+                }
+                break;
+            }
+            if matches!(o, Opnd::Label { .. }) { break; }
+            continue;
+        }
         let (segreg, off): (&str, u32) = match o {
             Opnd::Mem { seg, base, index, disp, .. } => {
                 let sr: &str = if !seg.is_empty() { seg } else if *base == "bp" { "ss" } else { "ds" };
